@@ -122,6 +122,15 @@ func c23Do(rep *vfReport, rn c23Run, runIdx int) (ops, out []string, ok bool) {
 		case "other-error":
 			pendingFails++
 			return nil, 0, errors.New("leadership lost while committing log")
+		case "unknown-error-conn-refused":
+			pendingFails++
+			return nil, 0, errors.New("dial tcp 127.0.0.1:4002: connect: connection refused")
+		case "unknown-error-not-open":
+			pendingFails++
+			return nil, 0, store.ErrNotOpen
+		case "unknown-error-timeout":
+			pendingFails++
+			return nil, 0, errors.New("read tcp 127.0.0.1:51234->127.0.0.1:4002: i/o timeout")
 		}
 		apply(er)
 		return nil, 0, nil
@@ -411,12 +420,13 @@ func c23Do(rep *vfReport, rn c23Run, runIdx int) (ops, out []string, ok bool) {
 }
 
 func TestVerifC23(t *testing.T) {
-	rep := vfNewReport("C23", "real http.Service with a scripted mock store: 2-4 concurrent clients x 6-14 queued requests of 1-3 uniquely numbered statements (40% with wait), queue capacity 4-32, batch size 1-6, timeout 3-15 ms, up to 3 injected Execute failures per service and one service with an outage of 5 consecutive failures (ErrLeaderNotFound, ErrNotLeader with failing or succeeding forward, other error); a third of the services also get requests of 40-300 statements; non-trivial when at least two batches of different sizes were applied")
+	rep := vfNewReport("C23", "real http.Service with a scripted mock store: 2-4 concurrent clients x 6-14 queued requests of 1-3 uniquely numbered statements (40% with wait), queue capacity 4-32, batch size 1-6, timeout 3-15 ms, up to 3 injected Execute failures per service and one service with an outage of 5 consecutive failures (ErrLeaderNotFound, ErrNotLeader with failing or succeeding forward, leadership lost, and errors runQueue does not recognise: connection refused, store not open, i/o timeout); a third of the services also get requests of 40-300 statements; non-trivial when at least two batches of different sizes were applied")
 	defer rep.Write()
 	r := vfNewRng(23)
 	n := vfScale(8, 600)
 	par := 8
-	kinds := []string{"leader-not-found", "not-leader-forward-fails", "not-leader-forward-ok", "other-error"}
+	kinds := []string{"leader-not-found", "not-leader-forward-fails", "not-leader-forward-ok", "other-error",
+		"unknown-error-conn-refused", "unknown-error-not-open", "unknown-error-timeout"}
 	var mu sync.Mutex
 	var allOps, allImpl [][]string
 	sem := make(chan struct{}, par)
@@ -438,7 +448,7 @@ func TestVerifC23(t *testing.T) {
 		for k := 0; k < nf; k++ {
 			rn.failAt[at] = r.Pick(kinds)
 			if longBurst {
-				rn.failAt[at] = kinds[k%2] // never a forward that succeeds
+				rn.failAt[at] = []string{kinds[0], kinds[4], kinds[1], kinds[5], kinds[6]}[k%5] // recognised and unrecognised errors; never a forward that succeeds
 			}
 			if longBurst || r.Chance(60) {
 				at++ // burst
@@ -604,8 +614,11 @@ func c23StalledConsumer(rep *vfReport) {
 		mu.Lock()
 		defer mu.Unlock()
 		calls++
-		if calls <= 2 {
+		if calls == 1 {
 			return nil, 0, store.ErrLeaderNotFound // ~2 s outage (runQueue sleeps 1 s per failure)
+		}
+		if calls == 2 {
+			return nil, 0, errors.New("dial tcp 127.0.0.1:4002: connect: connection refused") // an error runQueue has no name for
 		}
 		for _, st := range er.Request.Statements {
 			if mm := c23ValRe.FindStringSubmatch(st.Sql); mm != nil {
@@ -632,7 +645,7 @@ func c23StalledConsumer(rep *vfReport) {
 		resp.Body.Close()
 		return resp.StatusCode
 	}
-	replay := map[string]interface{}{"scenario": "batch size 8, timeout 5 ms; Execute fails twice (2 s); request 1, 40 ms, request 2, 40 ms, request 3 with wait (10 s); no further requests"}
+	replay := map[string]interface{}{"scenario": "batch size 8, timeout 5 ms; Execute fails twice (ErrLeaderNotFound, then connection refused; 2 s); request 1, 40 ms, request 2, 40 ms, request 3 with wait (10 s); no further requests"}
 	s1 := post("", 1)
 	time.Sleep(40 * time.Millisecond) // its timer fires; the consumer takes it and starts failing
 	s2 := post("", 2)
@@ -657,7 +670,9 @@ func c23StalledConsumer(rep *vfReport) {
 		rep.Fail("queued-request-rejected", fmt.Sprintf("status %d", s3), replay)
 		return
 	}
-	if c23Ints(got) != "1,2,3" {
+	if len(got) < 3 {
+		rep.Fail("accepted-statements-dropped", fmt.Sprintf("stalled-consumer scenario (Execute failed with ErrLeaderNotFound, then with \"connection refused\", then succeeded): the waiter of request 3 got 200 but only %s of 1,2,3 were applied", c23Ints(got)), replay)
+	} else if c23Ints(got) != "1,2,3" {
 		rep.Fail("applied-out-of-acceptance-order", fmt.Sprintf("stalled-consumer scenario: applied %s when the waiter returned, want 1,2,3", c23Ints(got)), replay)
 	}
 	rep.Case("stalled-consumer", true)
